@@ -104,6 +104,19 @@ def install_guard(tol=1e-9, max_vars=12):
             return s < -tol
         return abs(s) > tol
 
+    def survivors(model, rows, nv):
+        """0/1 points satisfying every row; rows are only ever appended by the code under test, so the
+        points surviving the rows seen at the previous call of the same model are re-filtered by the new rows"""
+        cache = getattr(model, "_c04_cache", None)
+        if cache is None or cache[0] > len(rows) or cache[2] != nv:
+            cache = (0, _bits(nv), nv)
+        done, pts, _ = cache
+        new = rows[done:]
+        if new:
+            pts = [y for y in pts if not any(bad(r, y) for r in new)]
+        model._c04_cache = (len(rows), pts, nv)
+        return pts
+
     def guard(self, *a, **k):
         GUARD["calls"] += 1
         st = orig(self, *a, **k)
@@ -130,15 +143,13 @@ def install_guard(tol=1e-9, max_vars=12):
                     oc, _, _ = lin(self.objective, pos)
                     sgn = 1.0 if self.sense == mip.MAXIMIZE else -1.0
                     cur = sum(c for c, v in zip(oc, x) if v)
-                    for y in _bits(len(vars_)):
-                        if sgn * (sum(c for c, v in zip(oc, y) if v) - cur) > tol and not any(bad(r, y) for r in rows):
+                    for y in survivors(self, rows, len(vars_)):
+                        if sgn * (sum(c for c, v in zip(oc, y) if v) - cur) > tol:
                             fault = "sub-optimal answer reported OPTIMAL"
                             break
             elif st == mip.OptimizationStatus.INFEASIBLE:
-                for y in _bits(len(vars_)):
-                    if not any(bad(r, y) for r in rows):
-                        fault = "INFEASIBLE reported for a feasible model"
-                        break
+                if survivors(self, rows, len(vars_)):
+                    fault = "INFEASIBLE reported for a feasible model"
             else:
                 fault = "status " + str(st)
             if fault:
